@@ -45,7 +45,20 @@ def solo(desc, prune):
     return {"ok": True, "err": "", "fields": [dg(entry[f]) for f in FIELDS]}
 
 
+def alone(desc):
+    """The batch runner on a file that holds this game only: the reference for entries of games
+    that fail (their counters and vectors must not depend on the games before them)."""
+    try:
+        import conditionalrewards as cr
+        res = cr.run_games({"g": copy.deepcopy(desc)})
+        return {"ok": True,
+                "pr": [dg(res["g"].get(f)) for f in FIELDS] if "g" in res else [],
+                "un": [dg(res["g_no_prune"].get(f)) for f in FIELDS] if "g_no_prune" in res else []}
+    except Exception as exc:
+        return {"ok": False, "pr": [], "un": [], "err": type(exc).__name__}
+
+
 job = json.loads(sys.stdin.read())
 desc = eval(job["desc_repr"])
-out = {"pr": solo(desc, True), "un": solo(desc, False)}
+out = {"pr": solo(desc, True), "un": solo(desc, False), "alone": alone(desc)}
 real.write(json.dumps(out))
